@@ -22,7 +22,7 @@ def load_specs():
 
 
 def _verify_one(args):
-    qualname, timeout_ms = args
+    qualname, timeout_ms, dump = args
     t0 = time.time()
     out = {"function": qualname, "obligations": [], "error": None, "kind": "function"}
     try:
@@ -44,6 +44,14 @@ def _verify_one(args):
             solve(ob, timeout_ms)
             rec = {"name": ob.name, "kind": ob.kind, "status": ob.status, "seconds": round(ob.seconds, 4),
                    "line": ob.lineno, "text": ob.text, "solver": ob.solver}
+            if dump and ob.solver != "static":
+                import hashlib
+                d = os.path.join(os.path.dirname(os.path.dirname(os.path.abspath(__file__))), "scratch", "smt")
+                os.makedirs(d, exist_ok=True)
+                pth = os.path.join(d, hashlib.sha1(ob.name.encode()).hexdigest()[:16] + ".smt2")
+                with open(pth, "w") as fh:
+                    fh.write(ob.smt2())
+                rec["smt2"] = pth
             if ob.status != "unsat":
                 rec["reason"] = getattr(ob, "reason", "")
                 if ob.model is not None:
@@ -94,13 +102,13 @@ def verify_lemma(repo, lem):
     return ex.obligations
 
 
-def run(qualnames, timeout_ms=20000, jobs=None):
-    jobs = jobs or min(16, max(1, len(qualnames)))
+def run(qualnames, timeout_ms=20000, jobs=None, dump=False):
+    jobs = min(jobs or 16, max(1, len(qualnames)))
     if jobs == 1 or len(qualnames) == 1:
-        return [_verify_one((q, timeout_ms)) for q in qualnames]
+        return [_verify_one((q, timeout_ms, dump)) for q in qualnames]
     ctx = mp.get_context("fork")
     with ctx.Pool(jobs) as pool:
-        return pool.map(_verify_one, [(q, timeout_ms) for q in qualnames], chunksize=1)
+        return pool.map(_verify_one, [(q, timeout_ms, dump) for q in qualnames], chunksize=1)
 
 
 if __name__ == "__main__":
